@@ -779,3 +779,61 @@ func skippedSpreadThenSpread(op *Op) bool {
 	}
 	return false
 }
+
+// SkipIncludeCorpus: both @skip and @include on one node (field, inline fragment, fragment
+// spread), in both textual orders, for all four truth combinations, as literals and as
+// variables: the node is selected iff @include is true AND @skip is false, whatever the order.
+func SkipIncludeCorpus(prefix string) []*Scenario {
+	lit := func(b bool) string { return fmt.Sprint(b) }
+	vr := func(b bool) string {
+		if b {
+			return "$t"
+		}
+		return "$f"
+	}
+	var out []*Scenario
+	for si, src := range []func(bool) string{lit, vr} {
+		var fields, frags []string
+		n := 0
+		for _, inc := range []bool{true, false} {
+			for _, skp := range []bool{true, false} {
+				for _, incFirst := range []bool{true, false} {
+					d := fmt.Sprintf("@skip(if: %s) @include(if: %s)", src(skp), src(inc))
+					if incFirst {
+						d = fmt.Sprintf("@include(if: %s) @skip(if: %s)", src(inc), src(skp))
+					}
+					n++
+					fields = append(fields, fmt.Sprintf("f%d: s %s", n, d))
+					fields = append(fields, fmt.Sprintf("... %s { i%d: s }", d, n))
+					fields = append(fields, fmt.Sprintf("...F%d %s", n, d))
+					frags = append(frags, fmt.Sprintf("fragment F%d on A { s%d: s }", n, n))
+				}
+			}
+		}
+		head, vars := "query", map[string]any(nil)
+		if si == 1 {
+			head, vars = "query($t: Boolean!, $f: Boolean!)", map[string]any{"t": true, "f": false}
+		}
+		q := head + " { a { id " + strings.Join(fields, " ") + " } } " + strings.Join(frags, " ")
+		out = append(out, CorpusScenario(fmt.Sprintf("%s-skipincl%d", prefix, si), q, vars))
+	}
+	return out
+}
+
+// VarShareCorpus: one input-object variable (with a field left to its schema default and a
+// nested input object) used by many concurrently resolved fields: the argument maps built
+// from it must not alias the operation's variables (a race on OperationContext.Variables).
+func VarShareCorpus(prefix string, reps int) []*Scenario {
+	q := `query($v: In) { w1: withArgs(in: $v) w2: withArgs(in: $v, y: "y") w3: withArgs(in: $v) w4: withArgs(x: 1, in: $v) w5: withArgs(in: $v) w6: withArgs(in: $v) as { id } }`
+	var out []*Scenario
+	for i := 0; i < reps; i++ {
+		sc := CorpusScenario(fmt.Sprintf("%s-varshare%d", prefix, i), q,
+			map[string]any{"v": map[string]any{"n": map[string]any{"n": map[string]any{}}}}) // no numbers: JSON would hand the executor float64
+		sc.Sched = "free"
+		if i%4 == 3 {
+			sc.Sched = "lifo"
+		}
+		out = append(out, sc)
+	}
+	return out
+}
